@@ -41,6 +41,18 @@ End Case.
 """
 
 ATOLS = [1e-12, 0.0, 0.5, 1.0, 1.5]
+RTOL = Fr(1, 100000)
+
+
+def isclose_exact(a, b, atol):
+    """numpy.isclose(a, b, atol=atol) with numpy's default rtol, decided exactly on Gaussian
+    rationals (same square-root-free formula as PV.Front.GaussQc.gclose_gen):
+    |a - b| <= atol + rtol |b|."""
+    a, b = gq.g(a), gq.g(b)
+    A = Fr(atol)
+    d2 = (a - b).abs2()
+    s_ = d2 + A * A - RTOL * RTOL * b.abs2()
+    return d2 <= A * A or s_ <= 0 or s_ * s_ <= 4 * A * A * d2
 
 
 def atol_defs():
@@ -248,6 +260,14 @@ def rand_case(rng, want=None):
     if mode == "offset":
         family = "numeric"
     pool = rand_levels(rng, family, cplx_e, zero_block=(mode == "zero-block"), offset=(mode == "offset"))
+    if family == "numeric" and mode != "offset" and rng.random() < 0.2:
+        # a small overall scale (all levels below numpy's default atol 1e-8): with the solver's own
+        # atol the blocks are NOT shared and the quotients (powers of two) stay exact
+        sc = Fr(1, 2 ** rng.randint(27, 34))
+        pool = [G(x.re * sc, x.im * sc) for x in pool]
+        mode_tag = "tiny"
+    else:
+        mode_tag = None
     if family == "sympy" and mode == "implicit":
         mode = "separated"
     sizes = [rng.randint(2 if mode == "offset" else 1, 3) for _ in range(nb)]
@@ -276,6 +296,8 @@ def rand_case(rng, want=None):
         N = sizes[-1] + rng.randint(0, 2)
         W = [[G(rng.randint(-2, 2), rng.randint(-1, 1) if cplx_y else 0) for _ in range(sizes[-1])] for _ in range(N)]
     atol_k = rng.choice([0, 0, 0, 1, 2, 3, 4])
+    if mode_tag == "tiny":
+        atol_k = 0
     if family == "sympy":
         atol_k = rng.choice([0, 0, 3])  # ignored by the symbolic branch
     reqs = []
@@ -308,7 +330,7 @@ def rand_case(rng, want=None):
             kind = "sympy" if family == "sympy" else rng.choice(["dense", "sparse"])
             Y = dict(kind=kind, M=gq.enc(rand_y(rng, m, n, family, cplx_y, rng.choice([1.0, 0.7, 0.4]))))
         reqs.append(dict(Y=Y, i=i, j=j))
-    return dict(family=family, mode=mode, eigs=eigs_enc, W=None if W is None else gq.enc(W), atol_k=atol_k, reqs=reqs)
+    return dict(family=family, mode=mode + ("-tiny" if mode_tag else ""), eigs=eigs_enc, W=None if W is None else gq.enc(W), atol_k=atol_k, reqs=reqs)
 
 
 def nontrivial(case, outs):
@@ -411,7 +433,10 @@ def oracle_case_sequence(rng):
         reqs.append((i, j, Y))
     return dict(sequence=True, eigs=[[[x, 0.0] for x in e] for e in eigs],
                 reqs=[dict(i=i, j=j, Y=[[[y, 0.0] for y in r] for r in Y]) for i, j, Y in reqs],
-                kind=rng.choice(["dense", "sparse"]), atol=1e-12, i=reqs[0][0], j=reqs[0][1], Y=[], zero_block=False)
+                kind=rng.choice(["dense", "sparse"]),
+                # sometimes a user atol larger than the gap between neighbouring blocks (10): those pairs
+                # are then shared by the solver's own test and must be rejected at every use
+                atol=rng.choice([1e-12, 1e-12, 12.0, 25.0]), i=reqs[0][0], j=reqs[0][1], Y=[], zero_block=False)
 
 
 def oracle_eval_sequence(c):
@@ -423,7 +448,7 @@ def oracle_eval_sequence(c):
         i, j = r["i"], r["j"]
         Y = np.array([[y[0] for y in row] for row in r["Y"]])
         Yv = sp.csr_array(Y) if c["kind"] == "sparse" else Y
-        shared = i != j and bool(np.any(np.isclose(E[i].reshape(-1, 1), E[j].reshape(1, -1))))
+        shared = i != j and bool(np.any(np.isclose(E[i].reshape(-1, 1), E[j].reshape(1, -1), atol=c["atol"])))
         seen[(i, j)] = seen.get((i, j), 0) + 1
         try:
             with warnings.catch_warnings():
@@ -470,9 +495,16 @@ def oracle_case(rng):
     Y = [[(complex(rng.uniform(-1, 1), rng.uniform(-1, 1)) if cplx else rng.uniform(-1, 1)) if rng.random() < 0.8 else 0.0
           for _ in range(sizes[j])] for _ in range(sizes[i])]
     zero_block = rng.random() < 0.15
+    atol = rng.choice([1e-12, 1e-6, 0.1])
+    if rng.random() < 0.25:
+        # small overall scale (all levels far below numpy's default atol 1e-8): a well-posed problem,
+        # must be solved with the default atol
+        sc = 2.0 ** -rng.randint(27, 34)
+        eigs = [[x * sc for x in e] for e in eigs]
+        atol = 1e-12
     return dict(eigs=[[[x.real, x.imag] if isinstance(x, complex) else [x, 0.0] for x in e] for e in eigs],
                 Y=[[[complex(y).real, complex(y).imag] for y in r] for r in Y], i=i, j=j, kind=kind,
-                atol=rng.choice([1e-12, 1e-6, 0.1]), zero_block=zero_block)
+                atol=atol, zero_block=zero_block)
 
 
 def oracle_eval(c):
@@ -486,8 +518,8 @@ def oracle_eval(c):
     i, j = c["i"], c["j"]
     if c["zero_block"] and i != j:
         E[j] = np.array(0)
-        if np.any(np.isclose(E[i].reshape(-1, 1), 0)):
-            return None
+        if np.any(np.isclose(E[i].reshape(-1, 1), 0, atol=c["atol"])):
+            return None     # shared with the zero block by the solver's own test: legitimately rejected
     Y = np.array([[mk(y) for y in r] for r in c["Y"]])
     if c["kind"] == "sympy":
         Es = tuple(np.array([sympy.nsimplify(x, rational=True) for x in (e.reshape(-1) if e.shape else [])], dtype=object) if e.shape else e for e in E)
